@@ -322,6 +322,27 @@ fn gen(rng: &mut Rng, tier: &str) -> Vec<(String, Value)> {
             }
         }
     }
+    // (f3) the TAL is replaced by one with another key between runs (same URI): the stored certificate, which
+    //      validated under the old key, must not be used under the new one when the download fails or keeps
+    //      delivering the old certificate
+    for second in [Some(Fault::Missing), Some(Fault::Garbage), None] {
+        for back in [false, true] {
+            let mut r = rng.fork();
+            let mut s = loop { let s = make_world(&mut r, 1, 1, 2, 2); if aspa_customers_unique(&s.spec) { break s } };
+            let good = s.spec.tals[0].uris[0].certs[0].clone();
+            let with = |f: &Option<Fault>| -> Option<TaCertSpec> {
+                let mut c = good.clone();
+                match f { None => c, Some(Fault::Missing) => None, Some(f) => { if let Some(c) = c.as_mut() { c.faults.push(*f); } c } }
+            };
+            s.spec.tals[0].uris[0].certs = vec![with(&None), with(&second), with(&second)];
+            if !compatible(&s.spec) { continue }
+            let k = s.spec.tals[0].key;
+            let other = (k + 1) % 12;
+            let (class, mut v) = case("history.tal-rotation", &s.spec, &dflt, &[0, 1, 2]);
+            v["tal_keys"] = json!([[k], [other], [if back { k } else { other }]]);
+            cases.push((class, v));
+        }
+    }
     // (g) structured random: bigger trees, 0-3 random faults
     let nrand = if thorough { 800 } else { 60 };
     for i in 0..nrand {
@@ -408,7 +429,9 @@ impl<'a> Printer<'a> {
                 z(m.this_update), z(m.next_update), coq_bool(c.listed), coq_bool(c.present), coq_bool(c.hash_ok), coq_bool(c.decodes),
                 coq_bool(c.sig_ok), z(c.next_update), coq_nlist(c.revoked.iter()), entries)
     }
-    fn run_in(&self, plan: &ServePlan) -> String {
+    fn run_in(&self, plan: &ServePlan) -> String { self.run_in_keys(plan, None) }
+    /// `keys`: the key of each TAL file in this run (default: the key of the description)
+    fn run_in_keys(&self, plan: &ServePlan, keys: Option<&Vec<usize>>) -> String {
         let mut collected = Vec::new();
         for (i, ca) in self.truth.cas.iter().enumerate() {
             if plan.unreachable.contains(&ca.module) { panic!("unreachable modules are outside the model's scope") }
@@ -420,7 +443,7 @@ impl<'a> Printer<'a> {
                 let c = &u.certs[plan.step.min(u.certs.len() - 1)];
                 format!("(Build_ta_uri {} {})", ti * 100 + ui + 1, coq_opt(c.as_ref().map(|c| format!("({})", self.cert(c)))))
             });
-            format!("(Build_tal {} {})", t.key, uris)
+            format!("(Build_tal {} {})", keys.and_then(|k| k.get(ti).copied()).unwrap_or(t.key), uris)
         });
         format!("(Build_run_in [{}] {})", collected.join("; "), tals)
     }
@@ -454,8 +477,16 @@ fn run(input: &Value) -> CaseOut {
     if built.truth.cas.iter().any(|c| c.ambiguous) { panic!("ambiguous CA in a C01 case") }
     let world = World::new(built).expect("world");
     let printer = Printer::new(&world.built.truth);
+    let tal_keys: Option<Vec<Vec<usize>>> = input.get("tal_keys").and_then(|v| serde_json::from_value(v.clone()).ok());
     let mut outs = Vec::new();
-    for plan in &plans {
+    for (pi, plan) in plans.iter().enumerate() {
+        if let Some(tk) = &tal_keys {
+            // the TAL files of this run: same URIs, the key given for this step
+            let mut alt = spec.clone();
+            for (ti, k) in tk[pi].iter().enumerate() { alt.tals[ti].key = *k; }
+            let b = build(&alt).unwrap_or_else(|e| panic!("build (TAL keys): {}", e));
+            for (name, content) in &b.tal_files { std::fs::write(world.tal_dir().join(name), content).expect("write TAL"); }
+        }
         world.serve(plan).expect("serve");
         // a panic inside the engine is an observation, not a harness failure
         let o = std::panic::catch_unwind(std::panic::AssertUnwindSafe(|| world.run(&cfg)));
@@ -470,7 +501,7 @@ fn run(input: &Value) -> CaseOut {
     }
     let pkeys = coq_list(world.built.truth.cas.iter().enumerate(), |(i, c)| format!("({}, {})", i, c.key));
     let coq = format!("(Build_case {} {} {} {})",
-                      coq_cfg(&cfg), pkeys, coq_list(plans.iter(), |p| printer.run_in(p)), coq_list(outs.iter(), |o| printer.obs(o)));
+                      coq_cfg(&cfg), pkeys, coq_list(plans.iter().enumerate(), |(pi, p)| printer.run_in_keys(p, tal_keys.as_ref().map(|t| &t[pi]))), coq_list(outs.iter(), |o| printer.obs(o)));
     let nontrivial = outs.iter().any(|o| !o.payload.origins.is_empty() || !o.payload.aspas.is_empty() || !o.payload.router_keys.is_empty());
     let obs = json!({"runs": outs.iter().map(|o| json!({
         "result": o.result, "payload": o.payload, "store": o.store.iter().map(|p| json!([p.manifest_uri, p.manifest_number])).collect::<Vec<_>>(),
